@@ -345,6 +345,84 @@ RegSelf const r_canon{
     "every text over {a,newline,space,tab} up to the bound, char and wchar_t, with the canonical save-all/restore-each/re-read history; non-trivial when the text is non-empty (every history reads at the end of input and then restores; with a newline the restores cross it)",
     canon_run, canon_one, text_describe};
 
+// ---------------------------------------------------------------- long lines / many lines
+// The texts above are short. Line and column are counters: a line of 65535 and more characters and
+// a text of 65536 and more lines (and 2^8 - the same boundaries for narrower counters) must still be
+// reported exactly - also in the location that is saved and restored.
+template <typename Ch>
+void long_case(std::size_t shape, std::size_t len)
+{
+  // shape 0: one line of `len` characters; 1: a short line, then one line of `len` characters;
+  // 2: `len` empty lines followed by "ab"
+  std::basic_string<Ch> text;
+  if (shape == 1) { text += static_cast<Ch>('a'); text += static_cast<Ch>('\n'); }
+  if (shape == 2) text.assign(len, static_cast<Ch>('\n')), text += static_cast<Ch>('a'), text += static_cast<Ch>('b');
+  else text.append(len, static_cast<Ch>('a'));
+  count(len >= 255);
+  std::basic_istringstream<Ch> in{text};
+  fp::detail::stream<Ch> st{in_ref<Ch>(in)};
+  stream_ref<Ch> const r = to_ref(st);
+  std::string const what = std::string(ch_name<Ch>()) + (shape == 0 ? " one line of " : shape == 1 ? " 'a', newline and a line of " : " text of ") + str(len) + (shape == 2 ? " empty lines and 'ab'" : " characters");
+  auto const check = [&](std::size_t offset, char const *cls) {
+    fp::position<Ch> const p = fp::get_position(r);
+    Loc const e = ref_loc(text, offset);
+    if (static_cast<std::size_t>(static_cast<std::streamoff>(p.pos())) != offset) fail(std::string("stream::get_position|offset|") + cls, what + ": offset " + str(static_cast<std::streamoff>(p.pos())) + ", expected " + str(offset));
+    if (!p.location().has_value()) { fail(std::string("stream::get_position|no-location|") + cls, what); return p; }
+    fp::location const l = p.location().get_unsafe();
+    if (l.line().get() != e.line) fail(std::string("stream::get_position|line|") + cls, what + " at offset " + str(offset) + ": line " + str(l.line().get()) + ", expected " + str(e.line));
+    if (l.column().get() != e.col) fail(std::string("stream::get_position|column|") + cls, what + " at offset " + str(offset) + ": column " + str(l.column().get()) + ", expected " + str(e.col));
+    return p;
+  };
+  try
+  {
+    std::size_t offset = 0;
+    fp::position<Ch> const start = check(0, "long-text");
+    fcppt::optional::object<fp::position<Ch>> near_end;
+    while (offset < text.size())
+    {
+      if (offset + 2 == text.size()) near_end = fcppt::optional::object<fp::position<Ch>>{check(offset, "long-text")};
+      fcppt::optional::object<Ch> const c = fp::get_char(r);
+      if (!c.has_value() || c.get_unsafe() != text[offset]) { fail("stream::get_char|wrong-character|long-text", what + " at offset " + str(offset)); return; }
+      ++offset;
+      if (offset == 255 || offset == 256 || offset == 65535 || offset == 65536 || offset == 65537 || offset == text.size()) check(offset, "long-text");
+    }
+    if (fp::get_char(r).has_value()) fail("stream::get_char|character-at-end-of-input|long-text", what);
+    // restore the position saved two characters before the end: reads and positions repeat
+    if (near_end.has_value())
+    {
+      fp::set_position(r, near_end.get_unsafe());
+      check(text.size() - 2, "long-text-restored");
+      fcppt::optional::object<Ch> const c = fp::get_char(r);
+      if (!c.has_value() || c.get_unsafe() != text[text.size() - 2]) fail("stream::get_char|wrong-character|long-text-restored", what);
+      check(text.size() - 1, "long-text-restored");
+    }
+    fp::set_position(r, start);
+    check(0, "long-text-restored");
+  }
+  catch (std::exception const &e)
+  {
+    fail("stream|undocumented-exception|long-text", what + ": " + e.what());
+  }
+}
+std::size_t const long_lens[] = {254, 255, 256, 257, 65534, 65535, 65536, 65537, 131075};
+void long_one(Ints const &c)
+{
+  std::size_t const shape = static_cast<std::size_t>(static_cast<u64>(c.at(0)) % 3), li = static_cast<std::size_t>(static_cast<u64>(c.at(1)) % 9);
+  if (c.at(2) % 2 == 0) long_case<char>(shape, long_lens[li]);
+  else long_case<wchar_t>(shape, long_lens[li]);
+}
+Reg const r_long{"long_lines_many_lines", Kind::exhaustive, "a line of at least 255 characters or a text of at least 255 lines",
+                 [] {
+                   for (i64 sh = 0; sh < 3; ++sh)
+                     for (i64 li = 0; li < 9; ++li)
+                       for (i64 w = 0; w < 2; ++w) { cur3(sh, li, w); long_one({sh, li, w}); }
+                 },
+                 long_one,
+                 [](Ints const &c) {
+                   std::size_t const shape = static_cast<std::size_t>(static_cast<u64>(c.at(0)) % 3), li = static_cast<std::size_t>(static_cast<u64>(c.at(1)) % 9);
+                   return std::string(c.at(2) % 2 == 0 ? "char" : "wchar_t") + (shape == 0 ? " one line of " : shape == 1 ? " 'a', newline and a line of " : " text of ") + std::to_string(long_lens[li]) + (shape == 2 ? " empty lines and 'ab'" : " characters");
+                 }};
+
 // ---------------------------------------------------------------- random histories
 template <typename Ch>
 void random_history(Choices &c)
